@@ -15,12 +15,21 @@ Local Open Scope list_scope.
 
 Local Opaque exec_fuel.
 
-(* chunks as symbols, given which holes are plain (true) and which are quoted-plain (false) *)
-Definition syms_cls (cls : nat -> bool) (cs : list chunk) : list sym :=
-  flat_map (fun c => match c with
-                     | CText s => syms_of_string s
-                     | CHole id => if cls id then [SH id] else [SQ id]
-                     end) cs.
+(* chunks as symbols: every occurrence of a hole gets the kind listed for it (0 plain, 1 quoted-plain, 2 bare-safe,
+   3 double-quote-safe; quoted-plain when the list is exhausted) *)
+Definition hole_sym (k : nat) (id : nat) : sym :=
+  match k with 0 => SH id | 2 => SB id | 3 => SD id | _ => SQ id end.
+
+Fixpoint syms_cls (kinds : list nat) (cs : list chunk) : list sym :=
+  match cs with
+  | [] => []
+  | CText s :: cs' => syms_of_string s ++ syms_cls kinds cs'
+  | CHole id :: cs' =>
+      match kinds with
+      | k :: ks => hole_sym k id :: syms_cls ks cs'
+      | [] => SQ id :: syms_cls [] cs'
+      end
+  end.
 
 Lemma chars_of_app : forall a b, chars_of (a ++ b)%string = chars_of a ++ chars_of b.
 Proof. induction a as [|c a IH]; intros b; cbn [String.append chars_of app]; [reflexivity|]. rewrite IH. reflexivity. Qed.
@@ -39,19 +48,30 @@ Proof.
   cbn [map flat_map inst_sym app]. rewrite IH. reflexivity.
 Qed.
 
-Lemma render_expand : forall cls sg cs,
-  chars_of (render sg cs) = expand (fun id => chars_of (sg id)) (syms_cls cls cs).
+Lemma expand_hole_sym : forall sgc k id, expand sgc [hole_sym k id] = sgc id.
 Proof.
-  intros cls sg cs. unfold render. rewrite chars_of_concat. unfold syms_cls.
-  induction cs as [|c cs IH]; [reflexivity|].
-  cbn [map flat_map]. rewrite expand_app, <- IH. f_equal.
-  destruct c as [s|id]; cbn [render_chunk].
-  - rewrite expand_chars. reflexivity.
-  - destruct (cls id); cbn [expand flat_map inst_sym]; rewrite app_nil_r; reflexivity.
+  intros sgc k id. unfold expand. cbn [flat_map]. rewrite app_nil_r.
+  destruct k as [|[|[|[|k]]]]; reflexivity.
+Qed.
+
+Lemma render_cons : forall sg c cs, chars_of (render sg (c :: cs)) = chars_of (render_chunk sg c) ++ chars_of (render sg cs).
+Proof. intros sg c cs. unfold render. rewrite !chars_of_concat. reflexivity. Qed.
+
+Lemma render_expand : forall sg cs kinds,
+  chars_of (render sg cs) = expand (fun id => chars_of (sg id)) (syms_cls kinds cs).
+Proof.
+  intros sg. induction cs as [|c cs IH]; intros kinds; [reflexivity|].
+  rewrite render_cons. destruct c as [s|id]; cbn [syms_cls render_chunk].
+  - rewrite expand_app, expand_chars, <- IH. reflexivity.
+  - destruct kinds as [|k ks].
+    + change (SQ id :: syms_cls [] cs) with ([hole_sym 1 id] ++ syms_cls [] cs).
+      rewrite expand_app, expand_hole_sym, <- IH. reflexivity.
+    + change (hole_sym k id :: syms_cls ks cs) with ([hole_sym k id] ++ syms_cls ks cs).
+      rewrite expand_app, expand_hole_sym, <- IH. reflexivity.
 Qed.
 
 Theorem template_tokens_for_all_contents :
-  forall (t : list node) (d : value) (cls : nat -> bool) (chunks : list chunk),
+  forall (t : list node) (d : value) (cls : list nat) (chunks : list chunk),
     run t d = Some chunks ->
     forall sg : nat -> string,
       (forall id, sg id <> "") ->
@@ -72,7 +92,7 @@ Proof.
     injection Hrun as Ho. subst o.
     pose proof (exec_fill sg (consts_of t) Hne Hav exec_fuel d [("", d)] t chunks vs E) as F.
     change (fill_vars sg [("", d)]) with [("", fill sg d)] in F. rewrite F. reflexivity.
-  - rewrite (render_expand cls).
+  - rewrite (render_expand sg chunks cls).
     exact (slrun_sound (fun id => chars_of (sg id)) (syms_cls cls chunks) SLStart Hok).
 Qed.
 
@@ -90,6 +110,6 @@ Theorem template_skeleton_independent :
       end.
 Proof.
   intros t d cls chunks _ Hsup sg1 sg2 H1 H2. unfold lex.
-  rewrite (render_expand cls sg1), (render_expand cls sg2).
+  rewrite (render_expand sg1 chunks cls), (render_expand sg2 chunks cls).
   exact (lex_independent_of_holes _ _ _ H1 H2 Hsup).
 Qed.
